@@ -55,7 +55,7 @@ class ZeroLinearOperator(LinearOperator):
 
     def _get_indices(self, row_index: IndexType, col_index: IndexType, *batch_indices: IndexType) -> torch.Tensor:
         new_size = _compute_getitem_size(self, batch_indices + (row_index, col_index))
-        return torch.zeros(*new_size)
+        return torch.zeros(*new_size, dtype=self._dtype, device=self._device)
 
     def _getitem(self, row_index: IndexType, col_index: IndexType, *batch_indices: IndexType) -> LinearOperator:
         new_size = _compute_getitem_size(self, batch_indices + (row_index, col_index))
@@ -219,7 +219,7 @@ class ZeroLinearOperator(LinearOperator):
 
     @cached
     def to_dense(self: Float[LinearOperator, "*batch M N"]) -> Float[Tensor, "*batch M N"]:
-        return torch.zeros(*self.sizes)
+        return torch.zeros(*self.sizes, dtype=self._dtype, device=self._device)
 
     def transpose(self, dim1: int, dim2: int) -> LinearOperator:
         sizes = self.sizes.copy()
@@ -227,7 +227,7 @@ class ZeroLinearOperator(LinearOperator):
         sizes[dim1] = sizes[dim2]
         sizes[dim2] = tmp
 
-        return ZeroLinearOperator(*sizes)
+        return ZeroLinearOperator(*sizes, dtype=self._dtype, device=self._device)
 
     def __add__(
         self: Float[LinearOperator, "... #M #N"],
